@@ -1,0 +1,37 @@
+//go:build verif
+
+package server
+
+import (
+	"context"
+	"net"
+	"sync/atomic"
+)
+
+// Verification hooks, compiled only with the "verif" build tag. A test
+// harness may install functions here to diversify goroutine schedules at
+// lock-free points and to hand in-memory connections to active peers.
+
+type verifHooks struct {
+	yield func(point string, peer string)
+	dial  func(ctx context.Context, addr string, port int) (net.Conn, bool)
+}
+
+var verifHookPtr atomic.Pointer[verifHooks]
+
+func verifYield(point string, f *fsm) {
+	if h := verifHookPtr.Load(); h != nil && h.yield != nil {
+		peer := ""
+		if f != nil {
+			peer = f.pConf.ReadOnly().State.NeighborAddress.String()
+		}
+		h.yield(point, peer)
+	}
+}
+
+func verifDial(ctx context.Context, addr string, port int) (net.Conn, bool) {
+	if h := verifHookPtr.Load(); h != nil && h.dial != nil {
+		return h.dial(ctx, addr, port)
+	}
+	return nil, false
+}
